@@ -2256,6 +2256,117 @@ fn c20_stop_race_body(casts: u32) -> vsched::Body {
     })
 }
 
+/// An actor that appeared after the sessions were ready is joined to a group by one task while it stops: the
+/// joiner is preemptible before each of its map / lock / channel steps, so the stop may run to completion inside
+/// the join call — in particular between the insertion of the member and the sending of the Join notification.
+/// Whatever the order in which the session hears of it, in the end no remote reference of the stopped actor is
+/// running or a member of the group on the peer.
+fn c20_join_vs_exit_body(kill: bool) -> vsched::Body {
+    with_rt(move || async move {
+        let t = two_nodes().await;
+        dial(&t.a, &t.b, "pipe-ab", 0);
+        vsched::quiesce_time();
+        let mut bad = Vec::new();
+        let qlog: L = Arc::new(Mutex::new(vec![]));
+        let (q, qh) = Actor::spawn(Some("Q".into()), Probe { log: qlog.clone(), tag: "Q", reply_delay_ms: 0 }, ()).await.expect("Q");
+        vsched::quiesce_time();
+        vsched::explore_schedules(true);
+        let qc = q.get_cell();
+        // (the joiner is spawned first: left alone it completes the join before the stop is even requested; a
+        // deviation at one of its steps hands over to the stopper, and the exit then runs inside the join call)
+        let order: L = Arc::new(Mutex::new(vec![]));
+        let (o1, o2) = (order.clone(), order.clone());
+        let joiner = vsched::spawn("joiner", async move {
+            let st = qc.get_status();
+            ractor::pg::join("late".into(), vec![qc.clone()]);
+            o1.lock().unwrap().push(format!("join returned (status at call {st:?}, at return {:?})", qc.get_status()));
+        });
+        let q2 = q.clone();
+        let stopper = vsched::spawn("stopper", async move {
+            if kill {
+                q2.kill();
+            } else {
+                q2.stop(None);
+            }
+            let _ = qh.await;
+            o2.lock().unwrap().push("exit complete".to_string());
+        });
+        let _ = joiner.await;
+        let _ = stopper.await;
+        vsched::quiesce_time();
+        vsched::explore_schedules(false);
+        let pid = q.get_id().pid();
+        let members: Vec<String> = ractor::pg::get_members(&"late".to_string()).iter().filter(|c| c.get_id().pid() == pid).map(|c| format!("{}={:?}", c.get_id(), c.get_status())).collect();
+        if !members.is_empty() {
+            bad.push(format!("the actor stopped (its join handle completed) while it was being joined to a group; afterwards the group still has {members:?}"));
+        }
+        let mut standins = Vec::new();
+        for n in [&t.a, &t.b] {
+            for (_, _, sess) in sessions(n).await {
+                for c in sess.get_children() {
+                    if !c.get_id().is_local() && c.get_id().pid() == pid && c.get_status() != ActorStatus::Stopped {
+                        standins.push(format!("{}={:?}", c.get_id(), c.get_status()));
+                    }
+                }
+            }
+        }
+        if !standins.is_empty() {
+            bad.push(format!("remote references of the stopped actor that are still alive on the peer: {standins:?}"));
+        }
+        let key = format!("members={} standins={} {:?}", members.len(), standins.len(), order.lock().unwrap());
+        for n in [t.a, t.b] {
+            n.server.stop(None);
+            let _ = n.handle.await;
+        }
+        Outcome { key, violations: bad }
+    })
+}
+
+/// The same window on the leave side: a task takes a live actor out of a group (preemptible inside the call) while
+/// another task joins it again. Whatever the order, in the end the remote reference is a member of the group on
+/// the peer exactly if the original is a member.
+fn c20_leave_vs_rejoin_body() -> vsched::Body {
+    with_rt(move || async move {
+        let t = two_nodes().await;
+        dial(&t.a, &t.b, "pipe-ab", 0);
+        vsched::quiesce_time();
+        let mut bad = Vec::new();
+        let qlog: L = Arc::new(Mutex::new(vec![]));
+        let (q, qh) = Actor::spawn(Some("Q".into()), Probe { log: qlog.clone(), tag: "Q", reply_delay_ms: 0 }, ()).await.expect("Q");
+        ractor::pg::join("late".into(), vec![q.get_cell()]);
+        vsched::quiesce_time();
+        if remote_ref_of(q.get_id(), "late").is_none() {
+            bad.push("set-up: the late actor joined a group but no remote reference followed".to_string());
+        }
+        vsched::explore_schedules(true);
+        let (qc1, qc2) = (q.get_cell(), q.get_cell());
+        let leaver = vsched::spawn("joiner", async move {
+            ractor::pg::leave("late".into(), vec![qc1]);
+        });
+        let rejoiner = vsched::spawn("stopper", async move {
+            ractor::pg::join("late".into(), vec![qc2]);
+        });
+        let _ = leaver.await;
+        let _ = rejoiner.await;
+        vsched::quiesce_time();
+        vsched::explore_schedules(false);
+        let original = ractor::pg::get_members(&"late".to_string()).iter().any(|c| c.get_id() == q.get_id());
+        let mirrored = remote_ref_of(q.get_id(), "late").is_some();
+        if original != mirrored {
+            bad.push(format!("after a leave and a join of the same live actor raced, the original is {} of the group but its remote reference on the peer is {} [[sig:pg-notifications-overtake-each-other]]", if original { "a member" } else { "not a member" }, if mirrored { "a member" } else { "not a member" }));
+        }
+        q.stop(None);
+        let _ = qh.await;
+        vsched::quiesce_time();
+        let key = format!("original={original} mirrored={mirrored}");
+        for n in [t.a, t.b] {
+            n.server.stop(None);
+            let _ = n.handle.await;
+        }
+        Outcome { key, violations: bad }
+    })
+}
+
 pub fn c20_units(thorough: bool) -> Vec<Unit> {
     let cfg = cluster_cfg();
     let mut v = Vec::new();
@@ -2284,6 +2395,16 @@ pub fn c20_units(thorough: bool) -> Vec<Unit> {
         ..cfg.clone()
     };
     v.push(Unit::explore_split(Job::new("remote-stop-race", fine2, Some(if thorough { 2 } else { 1 }), c20_stop_race_body(2)), 16));
+    // a join under way while the joined actor stops (decision points inside the joiner's pg::join call)
+    let fine3 = ExecCfg {
+        filter: Some(Arc::new(|k, _l, t: &vsched::TaskInfo| matches!(k, vsched::PointKind::Map | vsched::PointKind::Lock | vsched::PointKind::Channel) && t.role == "joiner")),
+        park_preempted: true,
+        ..cfg.clone()
+    };
+    for kill in [false, true] {
+        v.push(Unit::explore_split(Job::new(format!("remote-join-vs-exit/{}", if kill { "kill" } else { "stop" }), fine3.clone(), Some(if thorough { 2 } else { 1 }), c20_join_vs_exit_body(kill)), 8));
+    }
+    v.push(Unit::explore_split(Job::new("remote-leave-vs-rejoin".to_string(), fine3.clone(), Some(if thorough { 2 } else { 1 }), c20_leave_vs_rejoin_body()), 8));
     // timed-out calls with transit time: (latency, think time of the real actor, pause before the next call)
     let mut late = vec![(30u64, 80u64, 5u64), (30, 80, 30), (20, 60, 5), (10, 120, 5)];
     if thorough {
